@@ -1,6 +1,7 @@
 package drivers
 
 import (
+	"encoding/binary"
 	"encoding/json"
 	"fmt"
 	"github.com/moby/patternmatcher"
@@ -13,6 +14,7 @@ import (
 	"sync"
 	"sync/atomic"
 	"time"
+	"verif/harness/hstream"
 
 	"github.com/tonistiigi/fsutil"
 	"github.com/tonistiigi/fsutil/types"
@@ -111,6 +113,9 @@ func runSyncInput(c *Ctx, caseNo int, in syncInput) ([]vt.Ev, *SyncResult, error
 func Sync(c *Ctx) error {
 	if c.What == "filtered" {
 		return syncFiltered(c)
+	}
+	if c.What == "meta" {
+		return syncMeta(c)
 	}
 	if c.Replay != "" {
 		in := &syncInput{}
@@ -794,6 +799,272 @@ func syncFiltered(c *Ctx) error {
 		if straddle {
 			c.Stats.Count("groupStraddlesFilter", 1)
 			c.Stats.Sample(vt.Ev{"tree": pathsOf(t), "stack": in.Stack, "reported": len(reported)})
+		}
+	}
+	return nil
+}
+
+// ---------------------------------------------------------------------------
+// metadata-only transfers (C19)
+
+type metaInput struct {
+	Src      model.Tree `json:"src"`
+	Dst      model.Tree `json:"dst"`
+	Selected []string   `json:"selected"`
+	CapS     int        `json:"capS"`
+	CapR     int        `json:"capR"`
+	Origin   string     `json:"origin"`
+	Puppet   bool       `json:"puppet"`
+}
+
+const listingName = ".fsutil-metadata"
+
+// decodeListing reads the listing file: 4-byte little-endian length + encoded stat, repeated.
+func decodeListing(path string) (present bool, framingOK bool, recs []string) {
+	recs = []string{}
+	fi, err := os.Lstat(path)
+	if err != nil {
+		return false, false, recs
+	}
+	if !fi.Mode().IsRegular() {
+		return true, false, recs
+	}
+	b, err := os.ReadFile(path)
+	if err != nil {
+		return true, false, recs
+	}
+	for len(b) > 0 {
+		if len(b) < 4 {
+			return true, false, recs
+		}
+		n := int(binary.LittleEndian.Uint32(b[:4]))
+		b = b[4:]
+		if n > len(b) {
+			return true, false, recs
+		}
+		var st types.Stat
+		if err := st.UnmarshalVT(b[:n]); err != nil {
+			return true, false, recs
+		}
+		recs = append(recs, hstream.StatHash(&st))
+		b = b[n:]
+	}
+	return true, true, recs
+}
+
+func runMeta(c *Ctx, caseNo int, in metaInput) ([]vt.Ev, *SyncResult, error) {
+	base := filepath.Join(c.Work, fmt.Sprintf("mcase%d", caseNo))
+	src, dst := filepath.Join(base, "src"), filepath.Join(base, "dst")
+	defer disk.RemoveAll(base)
+	if err := os.MkdirAll(src, 0755); err != nil {
+		return nil, nil, err
+	}
+	if err := os.MkdirAll(dst, 0755); err != nil {
+		return nil, nil, err
+	}
+	if !in.Puppet {
+		if err := disk.Materialise(src, in.Src); err != nil {
+			return nil, nil, fmt.Errorf("materialise src: %w", err)
+		}
+	}
+	if err := disk.Materialise(dst, in.Dst); err != nil {
+		return nil, nil, fmt.Errorf("materialise dst: %w", err)
+	}
+	sel := map[string]bool{}
+	selP := [][][]int{}
+	for _, p := range in.Selected {
+		sel[p] = true
+		selP = append(selP, vt.P(p))
+	}
+	o := SyncOpts{Mode: "dirty", Differ: "metadata", CapS2R: in.CapS, CapR2S: in.CapR,
+		MetadataOnly: func(p string, st *types.Stat) bool { return sel[filepath.ToSlash(p)] },
+		Extra:        vt.Ev{"input": vt.Opaque(in), "origin": in.Origin, "selected": selP}}
+	if in.Puppet {
+		view := in.Src.Clone()
+		view.Sort()
+		byPath := map[string][]byte{}
+		for i := range view {
+			if view[i].Type == "file" {
+				byPath[view[i].Path] = view[i].Data
+			}
+		}
+		o.Content = func(p string) ([]byte, bool) { b, ok := byPath[p]; return b, ok }
+		o.PuppetS = PuppetSender(view, SendScript{Chunk: "k32", Seed: int64(caseNo)})
+	}
+	res, err := RunSync(caseNo, src, dst, o)
+	if err != nil {
+		return nil, nil, err
+	}
+	present, ok, recs := decodeListing(filepath.Join(dst, listingName))
+	end := res.Events[len(res.Events)-1]
+	end["listing"] = vt.Ev{"present": present, "framingOK": ok, "recs": recs}
+	return res.Events, res, nil
+}
+
+func syncMeta(c *Ctx) error {
+	if c.Replay != "" {
+		in := &metaInput{}
+		if err := vt.ReplayInput(c.Replay, in); err != nil {
+			return err
+		}
+		Regen(in.Src)
+		Regen(in.Dst)
+		evs, _, err := runMeta(c, c.NextCase(), *in)
+		if err != nil {
+			return err
+		}
+		for _, e := range evs {
+			c.Out.Emit(e)
+		}
+		return nil
+	}
+	n := 220
+	if c.Thorough() {
+		n = 4000
+	}
+	c.Stats.Rule = "one case = one metadata-only transfer (source tree, selector table, prior destination); non-trivial = some regular file is selected and some is not; distinct by (tree, selector, destination)"
+	o := genOpts{MaxEntries: 25, Special: true, Xattrs: true, Links: true, BigFiles: false}
+	for i := 0; i < n; i++ {
+		t := RandomTree(c.Rand, o)
+		origin := "random"
+		switch {
+		case (c.Thorough() && i%7 == 3) || i%40 == 3:
+			// listings larger than several 32 KiB buffer chunks: many entries with long names
+			for k := 0; k < 500+c.Rand.Intn(300); k++ {
+				e := newFile(c.Rand, genOpts{})
+				e.Size, e.Data = 1, fileData(e.DSeed, 1)
+				e.Content = model.ContentID(e.Data)
+				e.Path = fmt.Sprintf("big%04d-%s", k, strings.Repeat("x", 200+c.Rand.Intn(40)))
+				t = append(t, e)
+			}
+			origin = "bigListing"
+		case i%7 == 5:
+			// a single stat larger than a chunk (large xattr)
+			e := newFile(c.Rand, genOpts{})
+			e.Path = "hugexattr"
+			e.Xattrs = map[string]string{"user.big": strings.Repeat("v", 40000+c.Rand.Intn(20000))}
+			if t.Find(e.Path) == nil {
+				t = append(t, e)
+			}
+			origin = "hugeStat"
+		}
+		// a source entry with the listing file's own name: before, between and after other entries
+		switch c.Rand.Intn(4) {
+		case 0:
+			e := newFile(c.Rand, genOpts{})
+			e.Path = listingName
+			if t.Find(e.Path) == nil {
+				t = append(t, e)
+			}
+		case 1:
+			// nested entry of that name must be listed and transferred like any other
+			for _, d := range t {
+				if d.Type == "dir" {
+					e := newFile(c.Rand, genOpts{})
+					e.Path = d.Path + "/" + listingName
+					if t.Find(e.Path) == nil {
+						t = append(t, e)
+					}
+					break
+				}
+			}
+		}
+		t.Sort()
+		// selector: none / all / files / directories / nested random; closed under hard-link sources
+		sel := map[string]bool{}
+		mode := c.Rand.Intn(6)
+		for _, e := range t {
+			switch mode {
+			case 0:
+			case 1:
+				sel[e.Path] = true
+			case 2:
+				sel[e.Path] = e.Type == "file"
+			case 3:
+				sel[e.Path] = e.Type == "dir"
+			default:
+				sel[e.Path] = c.Rand.Intn(3) == 0
+			}
+		}
+		// hard-link closure: a selected link member selects the first member of its group
+		first := map[int]string{}
+		for _, e := range t {
+			if e.Group != 0 {
+				if _, ok := first[e.Group]; !ok {
+					first[e.Group] = e.Path
+				}
+			}
+		}
+		for _, e := range t {
+			if e.Group != 0 && sel[e.Path] {
+				sel[first[e.Group]] = true
+			}
+		}
+		var selected []string
+		for _, e := range t {
+			if sel[e.Path] {
+				selected = append(selected, e.Path)
+			}
+		}
+		var dst model.Tree
+		switch c.Rand.Intn(5) {
+		case 0:
+			dst = model.Tree{{Path: listingName, Type: "file", Perm: 0644, Mtime: uniqueMtime(), Data: []byte("stale listing"), Size: 13}}
+		case 1:
+			dst = model.Tree{{Path: listingName, Type: "symlink", Perm: 0777, Link: "elsewhere", Mtime: uniqueMtime()}}
+		case 2:
+			dst, _ = MutateTree(c.Rand, t, o, 3)
+			if len(dst) > 200 || origin == "hugeStat" {
+				dst = nil
+			}
+		case 3:
+			dst = RandomTree(c.Rand, o)
+		}
+		if origin == "hugeStat" {
+			// such a stat cannot be materialised on ext4: synthetic sender, entry listed but not selected
+			var s2 []string
+			for _, p := range selected {
+				if p != "hugexattr" {
+					s2 = append(s2, p)
+				}
+			}
+			selected = s2
+			sel["hugexattr"] = false
+		}
+		in := metaInput{Src: t, Dst: dst, Selected: selected, CapS: []int{0, 4, 64}[c.Rand.Intn(3)], CapR: []int{0, 4, 64}[c.Rand.Intn(3)],
+			Origin: origin, Puppet: (i%5 == 4 && origin == "random") || origin == "hugeStat"}
+		evs, res, err := runMeta(c, c.NextCase(), in)
+		if err != nil {
+			return err
+		}
+		for _, e := range evs {
+			c.Out.Emit(e)
+		}
+		selF, unselF := 0, 0
+		for _, e := range t {
+			if e.Type == "file" {
+				if sel[e.Path] {
+					selF++
+				} else {
+					unselF++
+				}
+			}
+		}
+		key := struct {
+			S, D string
+			Sel  []string
+		}{t.Key(), dst.Key(), selected}
+		c.Stats.Case(vt.Opaque(key), selF > 0 && unselF > 0)
+		c.Stats.Count("origin:"+origin, 1)
+		c.Stats.Count(fmt.Sprintf("selectorMode:%d", mode), 1)
+		if t.Find(listingName) != nil {
+			c.Stats.Count("sourceHasListingName", 1)
+		}
+		if res.SOK && res.ROK {
+			c.Stats.Count("bothOK", 1)
+		}
+		if selF > 0 && unselF > 0 && len(t) < 15 {
+			c.Stats.Sample(vt.Ev{"tree": pathsOf(t), "selected": selected, "priorDest": pathsOf(dst)})
 		}
 	}
 	return nil
